@@ -135,6 +135,8 @@ def load():
         if not f.startswith(r + os.sep):
             raise HarnessError(f"{name} was imported from {f}, not from {r}")
     _install_iodata_stub()
+    # the simulated user's default: Python warnings are not shown (numpy's own error state stays at its default)
+    warnings.simplefilter("ignore")
     ns = types.SimpleNamespace()
     ns.root = r
     ns.pkgdir = os.path.join(r, "gbasis") + os.sep
